@@ -144,7 +144,7 @@ func expand(env *fw.Env, src string, raw json.RawMessage) []json.RawMessage {
 	case "gen:bidi":
 		num, den := uint64(1), uint64(12)
 		if quick {
-			den = 22
+			den = 15
 		}
 		h, ok := keep(raw, env.Seed, num, den)
 		if !ok {
@@ -162,7 +162,7 @@ func expand(env *fw.Env, src string, raw json.RawMessage) []json.RawMessage {
 	case "gen:udp-t", "gen:udp-u":
 		num, den := uint64(1), uint64(1)
 		if quick && src == "gen:udp-t" {
-			den = 3
+			den = 2
 		}
 		h, ok := keep(raw, env.Seed, num, den)
 		if !ok {
@@ -296,17 +296,17 @@ func udpConsts(tseqs, useqs string, maxt, maxu int, batch int, devSpin, devNoUnb
 func modelJobs(env *fw.Env) []fw.TLCJob {
 	startBackground(env)
 	udp := func(name string, c map[string]string) fw.TLCJob {
-		return fw.TLCJob{Name: name, Module: "Relay", Cfg: "Relay_udp.cfg", Consts: c, Workers: 8, Timeout: 20 * time.Minute}
+		return fw.TLCJob{Name: name, Module: "Relay", Cfg: "Relay_udp_tmpl.cfg", Consts: c, Workers: 8, Timeout: 20 * time.Minute}
 	}
 	if env.Tier == "quick" {
 		return []fw.TLCJob{
-			{Name: "bidi:MaxSend=1:safety+liveness", Module: "Relay", Cfg: "Relay_bidi.cfg", Consts: map[string]string{"MAXSEND": "1"}, Workers: 8},
-			udp("udp:patched:T<=2xUSmall:strict-liveness", udpConsts("TAll", "USmall", 2, 1, 32, false, false, "UTermination")),
+			{Name: "bidi:MaxSend=1:safety+liveness", Module: "Relay", Cfg: "Relay_bidi.cfg", Workers: 8},
+			{Name: "udp:patched(default cfg):T<=2xUSmall:strict-liveness", Module: "Relay", Cfg: "Relay_udp.cfg", Workers: 8},
 			udp("udp:patched:TTinyxU<=2:strict-liveness", udpConsts("TTiny", "UAll", 1, 2, 32, false, false, "UTermination")),
 		}
 	}
 	return []fw.TLCJob{
-		{Name: "bidi:MaxSend=2:safety+liveness", Module: "Relay", Cfg: "Relay_bidi.cfg", Consts: map[string]string{"MAXSEND": "2"}, Workers: 8},
+		{Name: "bidi:MaxSend=2:safety+liveness", Module: "Relay", Cfg: "Relay_bidi_thorough.cfg", Workers: 8},
 		udp("udp:patched:T<=3xUSmall:strict-liveness", udpConsts("TAll", "USmall", 3, 1, 32, false, false, "UTermination")),
 		udp("udp:patched:TSmallxU<=2:strict-liveness", udpConsts("TSmall", "UAll", 1, 2, 32, false, false, "UTermination")),
 		udp("udp:patched:T<=3:BatchSize=2:strict-liveness", udpConsts("TAll", "UNone", 3, 1, 2, false, false, "UTermination")),
@@ -332,17 +332,15 @@ var (
 )
 
 func startBackground(env *fw.Env) {
-	mk := func(name string, c map[string]string, mustFail bool) *bgRun {
+	mk := func(name, cfg string, c map[string]string, mustFail bool) *bgRun {
 		return &bgRun{name: name, mustFail: mustFail,
-			job: fw.TLCJob{Name: name, Module: "Relay", Cfg: "Relay_udp.cfg", Consts: c, Workers: 2, Timeout: 10 * time.Minute}}
+			job: fw.TLCJob{Name: name, Module: "Relay", Cfg: cfg, Consts: c, Workers: 2, Timeout: 10 * time.Minute}}
 	}
 	bgRuns = []*bgRun{
-		mk("udp:as-found:lasso(both deviations)", udpConsts("TAll", "USmall", 2, 1, 32, true, true, "UTermination"), true),
-		mk("udp:as-found:lasso(de-framer re-reads)", udpConsts("TTiny", "UNone", 1, 1, 32, true, false, "UTermination"), true),
-		mk("udp:as-found:lasso(socket reader not woken)", udpConsts("TTiny", "UNone", 1, 1, 32, false, true, "UTermination"), true),
-	}
-	if env.Tier == "quick" {
-		bgRuns = append(bgRuns, mk("udp:as-found:T<=2xUSmall:liveness-modulo-deviations", udpConsts("TAll", "USmall", 2, 1, 32, true, true, "UTerminationExcused"), false))
+		mk("udp:as-found(lasso cfg):both deviations, strict liveness", "Relay_udp_lasso.cfg", nil, true),
+		mk("udp:as-found:only the de-framer re-read, strict liveness", "Relay_udp_tmpl.cfg", udpConsts("TTiny", "UNone", 1, 1, 32, true, false, "UTermination"), true),
+		mk("udp:as-found:only the missing wake-up, strict liveness", "Relay_udp_tmpl.cfg", udpConsts("TTiny", "UNone", 1, 1, 32, false, true, "UTermination"), true),
+		mk("udp:as-found(seeded cfg):T<=2xUSmall:liveness-modulo-deviations", "Relay_udp_seeded.cfg", nil, false),
 	}
 	for _, r := range bgRuns {
 		bgWG.Add(1)
@@ -522,6 +520,7 @@ func selfTest(env *fw.Env, accepted []*fw.Trace) []*fw.Trace {
 }
 
 func postDrive(env *fw.Env, traces []*fw.Trace) error {
+	replay := bgRuns == nil // ModelJobs is not called for --replay
 	if err := joinBackground(); err != nil {
 		return err
 	}
@@ -540,7 +539,7 @@ func postDrive(env *fw.Env, traces []*fw.Trace) error {
 	}
 	fmt.Printf("[drive] by kind (driven/realised): %v; hung UDP calls: %d\n", kinds, hungUDP.Load())
 	for _, k := range []string{"bidi", "udp", "bfree"} {
-		if c := kinds[k]; c[0] == 0 || c[1]*2 < c[0] {
+		if c := kinds[k]; (c[0] == 0 && !replay) || c[1]*2 < c[0] {
 			if k == "udp" && hungUDP.Load() >= maxHung {
 				continue
 			}
